@@ -1182,7 +1182,7 @@ namespace verif
         cp.destroy_op  = a.n("destroy", 1) != 0;
         cp.bulk        = int(a.n("bulk", 0));
         cp.bulk_rounds = int(a.n("bulk_rounds", 1));
-        cp.place       = a.s("place", "low") == "alt" ? 1 : 0;
+        cp.place       = a.s("place", "low") == "alt" ? 1 : a.s("place", "low") == "desc" ? 2 : 0;
         cp.bad         = a.n("bad", 0) != 0;
         cp.objhi       = a.n("objhi", 0) != 0;
         if (cp.L > MAXL)
